@@ -6,6 +6,8 @@ import (
 	"sync/atomic"
 	"time"
 
+	"github.com/openconfig/gribigo/aft"
+	"github.com/openconfig/gribigo/constants"
 	"github.com/openconfig/gribigo/rib"
 	"github.com/openconfig/gribigo/server"
 	"google.golang.org/grpc/codes"
@@ -298,3 +300,165 @@ type atomicU64 struct{ v atomic.Uint64 }
 
 func (a *atomicU64) Load() uint64   { return a.v.Load() }
 func (a *atomicU64) Store(x uint64) { a.v.Store(x) }
+
+// flushAllWithReaders: a server with many network instances and a resolved-entry hook (so
+// that the RIB takes whole-RIB snapshots while it is programmed). Two goroutines program
+// chains into the instances, two consumers read RIBContents, and a series of authorised
+// Flush(all) RPCs is made meanwhile. Every call must return - Flush(all) with OK -, and
+// after the programming has stopped one more Flush(all) leaves every instance empty. A call
+// that never returns is decided by the goroutine-dump classifier at the end of the run.
+func flushAllWithReaders(run *ev.Run) {
+	n := run.Pick(6, 120)
+	ev.Parallel(n, 3, func(i int) {
+		caseID := fmt.Sprintf("flush-all-vs-readers-%d", i)
+		if !run.Want(caseID) {
+			return
+		}
+		r := run.Rand(caseID)
+		nVRF := 5 + r.Intn(11)
+		var vrfs []string
+		for k := 0; k < nVRF; k++ {
+			vrfs = append(vrfs, fmt.Sprintf("VRF-%02d", k))
+		}
+		nis := append([]string{server.DefaultNetworkInstanceName}, vrfs...)
+		var hookCalls, snapshots, programmed, flushes atomic.Int64
+		hook := func(_ map[string]*aft.RIB, _ constants.OpType, _ string, _ constants.AFT, _ any, _ ...rib.ResolvedDetails) {
+			hookCalls.Add(1)
+		}
+		srv, err := drv.NewServer(vrfs, server.WithRIBResolvedEntryHook(hook))
+		if err != nil {
+			run.Fatal(err.Error())
+			return
+		}
+		R := srv.VerifRIB()
+		var nextID atomic.Uint64
+		chain := func(ni string, k uint64) []gen.OpSpec {
+			mk := func(e func(op *spb.AFTOperation)) gen.OpSpec {
+				op := &spb.AFTOperation{Id: nextID.Add(1), NetworkInstance: ni, Op: spb.AFTOperation_ADD}
+				e(op)
+				return gen.OpSpec{NI: ni, Op: op}
+			}
+			return []gen.OpSpec{
+				mk(func(op *spb.AFTOperation) {
+					op.Entry = &spb.AFTOperation_NextHop{NextHop: &aftpb.Afts_NextHopKey{Index: k, NextHop: &aftpb.Afts_NextHop{IpAddress: gen.S("192.0.2.1")}}}
+				}),
+				mk(func(op *spb.AFTOperation) {
+					op.Entry = &spb.AFTOperation_NextHopGroup{NextHopGroup: &aftpb.Afts_NextHopGroupKey{Id: k, NextHopGroup: &aftpb.Afts_NextHopGroup{NextHop: []*aftpb.Afts_NextHopGroup_NextHopKey{{Index: k, NextHop: &aftpb.Afts_NextHopGroup_NextHop{Weight: gen.U(1)}}}}}}
+				}),
+				mk(func(op *spb.AFTOperation) {
+					op.Entry = &spb.AFTOperation_Ipv4{Ipv4: &aftpb.Afts_Ipv4EntryKey{Prefix: fmt.Sprintf("10.%d.0.0/16", k), Ipv4Entry: &aftpb.Afts_Ipv4Entry{NextHopGroup: gen.U(k)}}}
+				}),
+			}
+		}
+		var mu sync.Mutex
+		var probs []string
+		note := func(p string) {
+			mu.Lock()
+			probs = append(probs, p)
+			mu.Unlock()
+		}
+		stop := make(chan struct{})
+		stopped := func() bool {
+			select {
+			case <-stop:
+				return true
+			default:
+				return false
+			}
+		}
+		var wg sync.WaitGroup
+		for w := 0; w < 2; w++ {
+			wg.Add(1)
+			go func(w int) {
+				defer wg.Done()
+				for k := 0; !stopped(); k++ {
+					ni := nis[(k*(w*2+1)+w)%len(nis)]
+					for _, s := range chain(ni, uint64(1+w)) {
+						if _, _, err := mon.Apply(R, s); err != nil {
+							note(fmt.Sprintf("programming-error-during-flush-all|%s: %v", s, err))
+							return
+						}
+						programmed.Add(1)
+					}
+				}
+			}(w)
+		}
+		for w := 0; w < 2; w++ {
+			wg.Add(1)
+			go func() {
+				defer wg.Done()
+				for !stopped() {
+					c, err := R.RIBContents()
+					if err != nil || len(c) != len(nis) {
+						note(fmt.Sprintf("rib-contents-error-during-flush-all|RIBContents: %d instances, err=%v", len(c), err))
+						return
+					}
+					snapshots.Add(1)
+				}
+			}()
+		}
+		flushAll := func() (error, error) {
+			_, err, wd := drv.Flush(srv, &spb.FlushRequest{NetworkInstance: &spb.FlushRequest_All{All: &spb.Empty{}}, Election: &spb.FlushRequest_Override{Override: &spb.Empty{}}})
+			return err, wd
+		}
+		nFlush := 40 + r.Intn(60)
+		wedged := false
+		for k := 0; k < nFlush; k++ {
+			err, wd := flushAll()
+			if wd != nil {
+				wedged = true
+				break
+			}
+			if err != nil {
+				note(fmt.Sprintf("flush-error-but-must-succeed:all-instances-under-load|Flush(all) #%d: %v", k, err))
+				break
+			}
+			flushes.Add(1)
+			time.Sleep(time.Duration(50+r.Intn(400)) * time.Microsecond)
+		}
+		close(stop)
+		joined := make(chan struct{})
+		go func() { wg.Wait(); close(joined) }()
+		if !wedged {
+			select {
+			case <-joined:
+			case <-time.After(drv.Watchdog):
+				ev.NoteWatchdog("programming / RIBContents concurrent with Flush(all)")
+				wedged = true
+			}
+		}
+		trace := []string{fmt.Sprintf("%d instances, resolved-entry hook installed; 2 goroutines program chains, 2 read RIBContents, %d Flush(all) RPCs meanwhile (%d answered; %d operations, %d snapshots, %d hook calls)", len(nis), nFlush, flushes.Load(), programmed.Load(), snapshots.Load(), hookCalls.Load())}
+		if wedged {
+			run.Inconclusive(caseID + ": a Flush(all) / RIBContents / AddEntry call did not return within the watchdog")
+			run.Eval(1)
+			return
+		}
+		mu.Lock()
+		defer mu.Unlock()
+		if len(probs) == 0 {
+			if err, wd := flushAll(); wd != nil {
+				run.Inconclusive(caseID + ": the final Flush(all) did not return within the watchdog")
+				run.Eval(1)
+				return
+			} else if err != nil {
+				probs = append(probs, fmt.Sprintf("flush-error-but-must-succeed:all-instances-at-quiescence|%v", err))
+			}
+			c, err := R.RIBContents()
+			if err != nil {
+				probs = append(probs, fmt.Sprintf("rib-contents-error|%v", err))
+			}
+			for ni, rc := range c {
+				if a := rc.Afts; a != nil && len(a.Ipv4Entry)+len(a.Ipv6Entry)+len(a.LabelEntry)+len(a.NextHopGroup)+len(a.NextHop) > 0 {
+					probs = append(probs, fmt.Sprintf("flush-left-entries:all-instances-after-load|%s holds %d ipv4 %d nhg %d nh after Flush(all) at quiescence", ni, len(a.Ipv4Entry), len(a.NextHopGroup), len(a.NextHop)))
+				}
+			}
+		}
+		mon.Report(run, caseID, trace, probs)
+		run.Eval(1)
+		run.Count("flush_all_under_readers", flushes.Load())
+		run.Count("rib_snapshots_during_flush_all", snapshots.Load())
+		run.Count("operations_during_flush_all", programmed.Load())
+		run.Count("resolved_hook_calls_during_flush_all", hookCalls.Load())
+		run.Distinct(caseID)
+	})
+}
